@@ -294,7 +294,7 @@ func Check() *common.Check {
 			}
 			return class
 		},
-		Rule: "(1) all strings of <=3 (quick) / <=4 (thorough) fragments over lexgen's 37-fragment lexical alphabet and over a 14-fragment hostile alphabet (invalid UTF-8, NUL, letters whose upper case has another byte length, quote openers, injection snippets); " +
+		Rule: "(1) all strings of <=3 (quick) / <=4 (thorough) fragments over lexgen's 37-fragment lexical alphabet and over a 14-fragment hostile alphabet (invalid UTF-8, NUL, letters whose upper case has another byte length, quote openers, injection snippets), and all character strings up to length 5..9 (+1 thorough) over six delimiter families (dollar quoting, quotes and backslash, comment marks, bracket / back-tick identifiers, mixed), bare and inside a SELECT; " +
 			"(2) all lexeme sequences of length <=3 (quick) / <=4 (thorough, reduced alphabet) over a 60-lexeme keyword/operator/literal alphabet; (3) all parser-token sequences of length <=2 over every token type the library names, and <=3 over 50 core types, " +
 			"each with and without a trailing EOF token (length-3 slices without EOF: thorough only) and with empty literals, x position mappings shorter / equal / longer than the token slice; (4) every token prefix of every distinct sqlgen statement, every byte prefix (step 1 quick up to 600 bytes) of every corpus file, " +
 			"every single-token deletion / duplication / replacement by 12 hostile tokens of a spread of statements; (5) a length ladder (every lexeme length 0..160/600 in 12 error templates and as token literals) and 12 saturation histories of 2200 distinct unexpected-token texts each (with / without a keyword suggestion, mixed in both orders) through the process-wide suggestion cache. Each input goes through every public entry point (about 60 for text, incl. every dialect and strict mode; on success also serialisers, extractors, scanner, traversal). " +
@@ -325,6 +325,43 @@ func Check() *common.Check {
 				}
 			}
 			hrec("", 0)
+			// (1c) delimiter soups: all short strings over the characters of one quoting / commenting family plus a letter and a
+			// separator.  Code that locates delimiters first and slices afterwards (dollar quoting in the text scanner, comment
+			// skipping, bracket and back-tick identifiers, escapes) is driven through every overlap of openers and closers.
+			soups := []struct {
+				name  string
+				alpha []string
+				n     int
+			}{
+				{"dollar", []string{"$", "a", " "}, 9},
+				{"dollar2", []string{"$", "a", "b", " ", "'"}, 6},
+				{"quote", []string{"'", "\\", "a", " "}, 7},
+				{"comment", []string{"/", "*", "-", "\n", "a"}, 6},
+				{"ident", []string{"[", "]", "\"", "`", "a", "."}, 5},
+				{"mixed", []string{"'", "$", "/", "*", "-", "\n"}, 5},
+			}
+			for _, sp := range soups {
+				n := sp.n
+				if e.Thorough() {
+					n++
+				}
+				var drec func(prefix string, depth int)
+				drec = func(prefix string, depth int) {
+					if depth > 0 {
+						text := prefix
+						e.Do("delim|"+sp.name+"|"+text, func(c *common.Ctx) { c.Input(text); onText(c, text, false) })
+						sel := "SELECT " + text + " FROM t"
+						e.Do("delim-sel|"+sp.name+"|"+text, func(c *common.Ctx) { c.Input(sel); onText(c, sel, false) })
+					}
+					if depth == n {
+						return
+					}
+					for _, a := range sp.alpha {
+						drec(prefix+a, depth+1)
+					}
+				}
+				drec("", 0)
+			}
 			// (2) lexeme soup
 			lex := []string{"SELECT", "FROM", "WHERE", "GROUP BY", "ORDER BY", "HAVING", "LIMIT", "OFFSET", "JOIN", "LEFT JOIN", "ON", "USING", "AS", "WITH", "RECURSIVE", "UNION", "ALL", "INSERT INTO", "VALUES",
 				"UPDATE", "SET", "DELETE FROM", "MERGE INTO", "WHEN", "MATCHED", "THEN", "CASE", "ELSE", "END", "CAST", "ARRAY", "INTERVAL", "EXISTS", "IN", "BETWEEN", "LIKE", "IS", "NULL", "NOT", "AND", "OR",
